@@ -484,7 +484,12 @@ func (e *Eval) index(n *Node) Val {
 	case *types.Map:
 		return x.mapLookup(e.st, a, i)
 	case *types.Array:
-		return Val{T: fmt.Sprintf("(select %s %s)", a.T, i.T), Typ: u.Elem()}
+		rv := Val{T: fmt.Sprintf("(select %s %s)", a.T, i.T), Typ: u.Elem()}
+		if a.Addr != nil && a.Addr.Idx == "" {
+			// an element of an array held in a struct field: a location (onwrite / written / modifies)
+			rv.Addr = &Addr{Kind: "elem", Key: a.Addr.Key, Ref: a.Addr.Ref, Idx: i.T}
+		}
+		return rv
 	case *types.Pointer:
 		if arr, ok := u.Elem().Underlying().(*types.Array); ok {
 			key := x.elemKey(arr.Elem())
@@ -724,6 +729,21 @@ func (e *Eval) call(n *Node) Val {
 			v := e.eval(args[0])
 			x.regComp("Once:done", "(Array Int Bool)")
 			return Val{T: fmt.Sprintf("(select %s %s)", x.get(e.st, "Once:done"), v.T), Sort: "Bool", Addr: &Addr{Kind: "cell", Key: "Once:done", Ref: v.T}}
+		case "written":
+			// written(loc): this call has stored to the shared location loc (thread-modular mode only)
+			v := e.eval(args[0])
+			if v.Addr == nil {
+				e.fail("written: not a location")
+			}
+			k := wrKey(v.Addr.Key)
+			if _, ok := x.compSort[k]; !ok {
+				e.fail("written(%s): only for a location declared shared", args[0])
+			}
+			idx := "0"
+			if v.Addr.Idx != "" {
+				idx = v.Addr.Idx
+			}
+			return Val{T: fmt.Sprintf("(select (select %s %s) %s)", x.get(e.st, k), v.Addr.Ref, idx), Sort: "Bool"}
 		case "firstload":
 			// firstload(loc): the value returned by this call's first atomic load of loc
 			v := e.eval(args[0])
@@ -902,7 +922,12 @@ func (e *Eval) call(n *Node) Val {
 				nb[k] = v
 			}
 			for _, p := range sf.Params {
-				delete(nb, p)
+				if v, ok := nb[p]; ok {
+					// still inside the caller's quantifier (no definition or well-formedness fact may be emitted at top
+					// level from here: it could mention the bound variable), only the name is shadowed
+					delete(nb, p)
+					nb["$shadowed:"+p] = v
+				}
 			}
 			c.bound = nb
 			c.hash = e.hash
